@@ -55,6 +55,7 @@ type Env struct {
 	facts       []string // heap well-formedness facts about ground pointer loads
 	topSt       *State
 	inTrigger   bool
+	loopPre     *State // state just before the loop (for atentry())
 }
 
 func (fe *FuncEnc) envAt(st *State, at *ssa.BasicBlock) *Env {
@@ -187,6 +188,19 @@ func (env *Env) eval(e CExpr) EV {
 	case *CSlice:
 		return env.slice(x)
 	case *CCall:
+		if x.Fn == "atentry" {
+			// atentry(e): value of e when the enclosing loop was entered
+			if len(x.Args) != 1 || env.loopPre == nil {
+				env.errf("atentry(e) is only meaningful in a loop invariant")
+			}
+			saved, savedAt := env.st, env.at
+			env.st, env.at = env.loopPre, nil
+			savedIn := env.inOld
+			env.inOld = true
+			v := env.rvalue(env.eval(x.Args[0]))
+			env.st, env.at, env.inOld = saved, savedAt, savedIn
+			return v
+		}
 		return env.callExpr(x)
 	case *CQuant:
 		return env.quant(x)
@@ -634,6 +648,25 @@ func (env *Env) index(x *CIndex) EV {
 	return EV{}
 }
 
+// typeArgName renders a type argument of typeis/unbox: Name, pkg.Name, ptr(T).
+func typeArgName(e CExpr) string {
+	switch x := e.(type) {
+	case *CIdent:
+		return x.Name
+	case *CSel:
+		if id, ok := x.X.(*CIdent); ok {
+			return id.Name + "." + x.Name
+		}
+	case *CCall:
+		if x.Fn == "ptr" && len(x.Args) == 1 {
+			if in := typeArgName(x.Args[0]); in != "" {
+				return "*" + in
+			}
+		}
+	}
+	return ""
+}
+
 // advOrg advances a slice origin by lo elements.
 func advOrg(org, lo string) string {
 	if lo == "0" {
@@ -770,7 +803,12 @@ func (env *Env) resolveType(name string) (types.Type, string) {
 		pn := name[:i]
 		tn = name[i+1:]
 		var found *types.Package
-		if env.pkg != nil {
+		if env.pkg != nil && env.pkg.Name() == pn {
+			if _, ok := env.pkg.Scope().Lookup(tn).(*types.TypeName); ok {
+				found = env.pkg
+			}
+		}
+		if found == nil && env.pkg != nil {
 			for _, imp := range env.pkg.Imports() {
 				if imp.Name() == pn {
 					found = imp
@@ -883,16 +921,7 @@ func (env *Env) callExpr(x *CCall) EV {
 		// typeis(x, T): dynamic type of interface value x is T
 		need(2)
 		v := arg(0)
-		id, ok := x.Args[1].(*CIdent)
-		tn := ""
-		if ok {
-			tn = id.Name
-		} else if u, ok := x.Args[1].(*CUnary); ok && u.Op == "-" {
-			_ = u
-		}
-		if st, ok := x.Args[1].(*CCall); ok && st.Fn == "ptr" {
-			tn = "*" + st.Args[0].(*CIdent).Name
-		}
+		tn := typeArgName(x.Args[1])
 		if tn == "" {
 			env.errf("typeis needs a type name")
 		}
@@ -902,12 +931,9 @@ func (env *Env) callExpr(x *CCall) EV {
 		// unbox(x, T): payload of interface x viewed as T
 		need(2)
 		v := arg(0)
-		tn := ""
-		if id, ok := x.Args[1].(*CIdent); ok {
-			tn = id.Name
-		}
-		if st, ok := x.Args[1].(*CCall); ok && st.Fn == "ptr" {
-			tn = "*" + st.Args[0].(*CIdent).Name
+		tn := typeArgName(x.Args[1])
+		if tn == "" {
+			env.errf("unbox needs a type name")
 		}
 		t, _ := env.resolveType(tn)
 		return EV{T: fe.sorts().unbox(t, "(hv_val "+v.T+")"), Typ: t}
